@@ -51,17 +51,23 @@ func (fs *FS) ListDir(dir string) ([]string, error) {
 // that size. The dir must already exist and be writable to the current
 // process.
 func (fs *FS) Create(dir string, name string, size uint64) (types.WritableFile, error) {
-	f, err := os.OpenFile(filepath.Join(dir, name), os.O_CREATE|os.O_EXCL|os.O_RDWR, os.FileMode(0644))
+	path := filepath.Join(dir, name)
+	f, err := os.OpenFile(path, os.O_CREATE|os.O_EXCL|os.O_RDWR, os.FileMode(0644))
 	if err != nil {
 		return nil, err
 	}
-	// We just created the file. Preallocate it's size.
+	// We just created the file. Preallocate it's size. If that fails don't leave
+	// the empty file (or its descriptor) behind: a retry of the exclusive create
+	// would fail.
 	if size > 0 {
 		if size > math.MaxInt32 {
+			f.Close()
+			os.Remove(path)
 			return nil, fmt.Errorf("maximum file size is %d bytes", math.MaxInt32)
 		}
 		if err := fileutil.Preallocate(f, int64(size), true); err != nil {
 			f.Close()
+			os.Remove(path)
 			return nil, err
 		}
 	}
